@@ -114,8 +114,17 @@ class FortranExpressionMapper(_PowerPrintingMixin, StringifyMapper):
         # This differs from the superclass only by adding spaces
         # around the operator, which provide an opportunity for
         # line breaking.
+        from pymbolic.primitives import FloorDiv, Quotient, Remainder
+
+        def rec_factor(factor):
+            result = self.rec(factor, PREC_PRODUCT, *args, **kwargs)
+            # "a * (b / c)" is not "a * b / c".
+            if isinstance(factor, (Quotient, FloorDiv, Remainder)):
+                result = "(%s)" % result
+            return result
+
         return self.parenthesize_if_needed(
-                self.join_rec(" * ", expr.children, PREC_PRODUCT, *args, **kwargs),
+                " * ".join(rec_factor(child) for child in expr.children),
                 enclosing_prec, PREC_PRODUCT)
 
     def map_comparison(self, expr, enclosing_prec):
